@@ -259,8 +259,24 @@ def check_enum(E, declared, values, case_json):
     return {"declared": n_decl, "undeclared": n_undecl}
 
 
+def _fresh_meta(meta):
+    """A fresh copy of the metaclass' module for every case, so that no state can leak from one
+    case into the next (a failing case then fails from its saved input alone)."""
+    import importlib.util
+    import sys
+    mod = sys.modules.get(meta.__module__)
+    path = getattr(mod, "__file__", None)
+    if not path or getattr(meta, "__name__", "") != "ProtocolEnumMeta":
+        return meta            # self-test metaclasses defined in this file
+    spec_ = importlib.util.spec_from_file_location("eolib.protocol.protocol_enum_meta", path)
+    m = importlib.util.module_from_spec(spec_)
+    spec_.loader.exec_module(m)
+    return m.ProtocolEnumMeta
+
+
 def check_declaration(meta, case):
     """Build the enum of a 'seq' or 'sweep' case and run the oracle over its values."""
+    meta = _fresh_meta(meta)
     members = case["members"]
     if len(members) == 0:
         raise HarnessError("member-less enums are excluded from C14 part (a)")
@@ -275,11 +291,43 @@ def check_declaration(meta, case):
                         f"{type(e).__name__}: {e}"[:300])
     if case["kind"] == "seq":
         values = case["values"]
+        # Other protocol enums live in the same interpreter: construct the same integers on an
+        # unrelated sibling enum first (and again afterwards), so that state shared between enum
+        # classes (a cache keyed by the integer alone, say) is visible inside this one case.
+        try:
+            sibling = build_enum(meta, [["SiblingOnly", -987654321]], "meta", name="SiblingEnum")
+            for v in values:
+                sibling(v)
+        except Exception:  # noqa: BLE001 - the sibling is only a disturbance, E is what is judged
+            sibling = None
+        if sibling is not None:
+            for step, v in enumerate(values):
+                x = sibling(v)
+                if not isinstance(x, sibling):
+                    c = dict(case)
+                    c["fail_step"] = step
+                    raise Violation("unrecognized_isinstance", c, "instance of the sibling enum",
+                                    repr(type(x)), f"n={v!r} (sibling enum constructed first)")
     else:
+        sibling = None
         values = range(case["lo"], case["hi"] + 1)
         if case.get("desc"):
             values = values[::-1]
-    return check_enum(E, _declared(members), values, case)
+    stats = check_enum(E, _declared(members), values, case)
+    if sibling is not None:
+        # and the constructions on E must not have disturbed the sibling either
+        for step, v in enumerate(values):
+            try:
+                x = sibling(v)
+                ok = isinstance(x, sibling) and x == v
+            except Exception:  # noqa: BLE001
+                ok = False
+            if not ok and v != -987654321:
+                c = dict(case)
+                c["fail_step"] = step
+                raise Violation("unrecognized_isinstance", c, "instance of the sibling enum equal to n",
+                                "constructing on one enum disturbed another enum", f"n={v!r}")
+    return stats
 
 
 def _trim_sweep(v):
